@@ -193,7 +193,10 @@ Definition keys_to_update (m : list (str * value)) (order : list str) (reclaim :
 (* the whole storage_data_disk + remove_backup_key_file, as a plan *)
 Definition snapshot_plan (d : db) (order : list str) (reclaim : bool) (fs : files) (clock : N)
   : list fop * list (str * value) * N :=
-  let open1 := (if reclaim && match fget fs FKeys with Some _ => true | None => false end
+  (* the metadata first, in one write (fix: a database with a keys file always has its id) *)
+  let open0 := [OpCreate FMeta; OpWriteAt FMeta 0 (le_bytes 8 (d_id d) +++ le_bytes 4 (strat_code (d_strat d)))] in
+  let open1 := open0 ++
+               (if reclaim && match fget fs FKeys with Some _ => true | None => false end
                 then [OpRename FKeys FKeysOld] else []) ++ [OpCreate FKeys] in
   let fs1 := apply_fops fs open1 in
   let open2 := (if reclaim && match fget fs1 FVals with Some _ => true | None => false end
@@ -202,7 +205,6 @@ Definition snapshot_plan (d : db) (order : list str) (reclaim : bool) (fs : file
   let w0 := mkW EmptyString EmptyString (fsize fs2 FVals) (fsize fs2 FKeys) (open1 ++ open2) (d_map d) clock 0 in
   let w1 := fold_left (snap_one reclaim) (keys_to_update (d_map d) order reclaim) w0 in
   let close := emit FKeys (bw_flush (w_kbuf w1)) ++ emit FVals (bw_flush (w_vbuf w1)) ++
-               [OpCreate FMeta; OpWriteAt FMeta 0 (le_bytes 8 (d_id d)); OpWriteAt FMeta 8 (le_bytes 4 (strat_code (d_strat d)))] ++
                (* remove_backup_key_file: only when the .old file exists *)
                (match fget fs2 FKeysOld with Some _ => [OpRemove FKeysOld] | None => [] end) in
   (w_ops w1 ++ close, w_mem w1, w_clock w1).
